@@ -22,22 +22,59 @@ CLAIMED = {
 NA = {
 }
 
+MIRSYM_NOTE = ('Trusted: the mirsym executor (own MIR interpreter; Rc = shared heap cell, Box by value) and its models of std '
+               '(HashMap/HashSet as association lists iterated in insertion order, key equality through the crate\'s own PartialEq; Vec; Option/Result; '
+               'iterator adaptors; integer semantics with overflow checks), z3 5.1, the nightly MIR dump regenerated from /repo on every run. '
+               'Every counterexample is replayed as a native Rust test against the real library before it is reported; a model that does not '
+               'reproduce is exit 2, never a VIOLATION. ')
+
+PROG_TEXT = ('Whole programs written with the real macros are compiled into a generated template crate; the MIR of the library and of the templates is '
+             'executed symbolically (integer parameters are solver variables, every feasible equality pattern between them is a path). On every path the '
+             'answers of the real engine are compared with an independent reference interpreter: terms up to renaming, attached disequalities up to logical '
+             'equivalence over all ground instances (z3 algebraic datatype). Bounded by the listed templates and the parameter window; not a proof. ')
+
+
+def prog_claim(what, design):
+    return dict(level='other', text=PROG_TEXT + what,
+                note=MIRSYM_NOTE + 'Bound: the templates of props/tmpl.py listed in the evidence, parameters |p| <= 3, U = DefaultUser, E = StreamEngine.',
+                technique='symbolic execution of rustc MIR of whole programs (own executor + z3) against a reference interpreter; native replay',
+                engine='mirsym', design=design)
+
+
 CLAIMED['C19'] = dict(
     level='other',
     text='Symbolic execution of the MIR of the real plusz/timesz relations (constructor, Solve::solve, Constraint::run) and of '
          'State::unify/run_constraints with z3 deciding ALL integer values inside a window: program skeletons with one or two '
          'constraints, every operand kind/aliasing pattern, optional variable-variable unification before/after posting, every '
          'binding order and every binding prefix. Per feasible path the solver checks: success => every equation holds on the '
-         'answer; failure => the equations have no solution; no panic; an operand determined by the other two is bound in the answer. '
-         'Appropriate because the arithmetic arms are reached only through State-level code that Kani cannot execute, and the '
-         'rare inputs (zero factors, non-divisible products, aliasing, wake-up order) are exactly what a solver finds.',
-    note='Trusted: the mirsym executor and its std models (HashMap/HashSet as association lists with the crate\'s own PartialEq, Vec, '
-         'Option/Result, Rust integer semantics), z3 5.1, the nightly MIR dump (regenerated from /repo on every run). Every reported '
-         'counterexample is first replayed as a proto_vulcan_query! program against the native library. Bound: window |n|<=12 (plusz) / '
-         '|n|<=4 (timesz) quick, 100 / 12 thorough; <= 3 variables; <= 2 constraints; U=DefaultUser. Outside: interaction with CLP(FD) domains, longer chains.',
+         'answer; failure => the equations have no solution; no panic; an operand determined by the other two is bound in the answer.',
+    note=MIRSYM_NOTE + 'Bound: window |n|<=12 (plusz) / |n|<=4 (timesz) quick, 100 / 12 thorough; <= 3 variables; <= 2 constraints. Outside: interaction with CLP(FD) domains, longer chains.',
     technique='symbolic execution of rustc MIR (own executor) with z3 deciding all integer inputs per path; native replay of models',
-    engine='mirsym',
-    design='DESIGN.md §3 C19')
+    engine='mirsym', design='DESIGN.md §3 C19')
+
+CLAIMED['C01'] = dict(
+    level='other',
+    text='Symbolic execution of the MIR of State::unify / unify_rec / unify_rec_compound / SMap::{walk, occurs_check, extend} on lazily initialised symbolic '
+         'terms (the shape of a term is chosen only where the code inspects it; numbers are solver variables) for 1..3 sequential equations. Per path z3 decides, '
+         'quantifying over ALL ground substitutions as values of an algebraic datatype: failure => no unifier exists; success => the bindings are acyclic, '
+         'every instance of them solves the equations (sound) and every unifier is an instance of them (most general).',
+    note=MIRSYM_NOTE + 'Bound: term depth <= 2, <= 3 variables, <= 3 equations, leaves: numbers, [], booleans, two strings; proper/improper lists and the crate\'s tuple compound. #[compound] structs and user terms are outside.',
+    technique='symbolic execution of rustc MIR with lazy initialisation of term inputs; z3 (datatypes + bit-vectors) decides the mgu laws',
+    engine='mirsym', design='DESIGN.md §3 C01')
+
+CLAIMED['C02'] = prog_claim('Here: eq/diseq/conde/fresh programs, every permutation of the constraint goals as its own template.', 'DESIGN.md §3 C02')
+CLAIMED['C03'] = prog_claim('Here additionally, on the real result objects: no program variable survives in an answer term or reported constraint, and the real '
+                            'LResult::constraints()/is_constrained() return exactly the reported constraints with an operand among the reified variables of the answer term (nested lists / compounds included).', 'DESIGN.md §3 C03')
+CLAIMED['C05'] = prog_claim('Here: programs inside dfs { } (nested cond, conjunctions, member/append); the answer SEQUENCE must equal the depth-first reference order.', 'DESIGN.md §3 C05')
+CLAIMED['C06'] = prog_claim('Here: default interleaving search; answer multisets must coincide; for loop/anyo prefixes every produced answer must be a reference answer.', 'DESIGN.md §3 C06')
+CLAIMED['C08'] = prog_claim('Here: conda / condu / onceo with heads that have 0, 1 or several answers (several: in deterministic dfs order) and failing/succeeding rests.', 'DESIGN.md §3 C08')
+CLAIMED['C10'] = prog_claim('Here: conde { A, B } under a shared constraint prefix versus the union of the reference answers of A and of B; Rc sharing is modelled (shared heap cells, copy on make_mut), so an in-place update of shared state would be seen.', 'DESIGN.md §3 C10')
+CLAIMED['C11'] = prog_claim('Here: project |x| { .. } with a non-relational observer goal, reached by one or several states, with and without closure wrapper; panics are violations. One genuine defect is a recorded known finding.', 'DESIGN.md §3 C11')
+CLAIMED['C12'] = prog_claim('Here: `for x in &coll { body }` over Vec and LTerm-list collections of 0..3 elements versus the explicit conjunction.', 'DESIGN.md §3 C12')
+CLAIMED['C13'] = prog_claim('Here: match / matche / matcha / matchu expressions (alternatives, repeated names, wildcards, literal/list/improper/empty patterns, shadowing, empty bodies) translated by the real proc-macro.', 'DESIGN.md §3 C13')
+CLAIMED['C14'] = prog_claim('Here: the clause grammar and term syntax (literals of every kind, nested proper/improper lists, `_`, tuple compounds, fresh, conde, closure, true/false) translated by the real proc-macros.', 'DESIGN.md §3 C14')
+CLAIMED['C15'] = prog_claim('Here: the scoping templates (shadowing, same-named variables in sibling scopes, pattern variables, recursive relations introducing fresh variables); alpha-renaming invariance is implied by agreement with the reference, which is name-free.', 'DESIGN.md §3 C15')
+CLAIMED['C24'] = prog_claim('Here: member, member1, append, rember, permute, distinct, cons, first, rest, empty in several argument modes on lists of symbolic integers versus reference definitions written from the documentation.', 'DESIGN.md §3 C24')
 
 ALL = ['C%02d' % i for i in range(1, 25)]
 PENDING = 'check not built yet in this round (construction order in DESIGN.md §4); not claimed until its engine layer is validated'
@@ -73,7 +110,7 @@ def main():
         'engines': [
             {'name': 'kani', 'path': '/verif/kani', 'serves_properties': ['C18'],
              'kind_free_text': 'Kani proof harnesses over the real crate (path dependency on /repo), run per harness through goto-cc/goto-instrument/cbmc by lib/kanirun.py'},
-            {'name': 'mirsym', 'path': '/verif/mirsym', 'serves_properties': ['C19'],
+            {'name': 'mirsym', 'path': '/verif/mirsym', 'serves_properties': sorted(p for p, c in CLAIMED.items() if c['engine'] == 'mirsym'),
              'kind_free_text': 'own symbolic executor for rustc MIR (-Zunpretty=mir of /repo, regenerated per run) with z3 as the deciding solver'},
         ],
         'checks': checks,
